@@ -121,6 +121,60 @@ def decide_events(g1, g2, n, rng, full):
     return evs
 
 
+def _apply_pre(rows, pre):
+    """harness helper: rows conjugated by the one-qubit gates of `pre` (application order); re-checked by TLC."""
+    for g in pre:
+        q = g["a"] - 1
+        if g["g"] == "H":
+            rows = sg.conj_rows(rows, "H", q)
+        elif g["g"] == "P":
+            rows = sg.conj_rows(rows, "S", q)
+        else:                       # X flips the sign of rows with Z / Y on q, Z of rows with X / Y
+            hit = (2, 3) if g["g"] == "X" else (1, 3)
+            rows = [{"s": r["s"] ^ (1 if r["p"][q] in hit else 0), "p": list(r["p"])} for r in rows]
+    return rows
+
+
+def lc_state_events(g1, g2, n, rng, k):
+    """lc_check on stabilizer STATES: local-Clifford images (with signs) of |g1> and |g2>, handed over as
+    StabilizerTableau / CliffordTableau in random generating sets."""
+    from graphiq.backends.stabilizer.functions.local_cliff_equi_check import lc_check
+    evs = []
+    for _ in range(k):
+        pres, states, obs = [], [], []
+        kind = rng.choice(["S", "T"])
+        for g in (g1, g2):
+            pre = [{"g": rng.choice(["H", "P", "X", "Z"]), "a": rng.randint(1, n), "b": 0} for _ in range(rng.randint(0, 2 * n))]
+            rows = sg.random_regauge(rng, _apply_pre(sg.graph_generators(g, n), pre))
+            if kind == "S":
+                st = sg.stabilizer_tableau(rows)
+                o = pj.stab_obs(st)
+            else:
+                st = pj.rows_to_tableau(sg.random_destabilizers(rng, rows), rows)
+                o = pj.tab_obs(st)
+            o["kind"] = kind
+            pres.append(pre)
+            states.append(st)
+            obs.append(o)
+        via = "lc_check:" + ("StabilizerTableau" if kind == "S" else "CliffordTableau")
+        e = {"fn": "lc_states", "via": via, "g2": cz.graph_edges1(g2), "pre1": pres[0], "pre2": pres[1],
+             "st1": obs[0], "st2": obs[1]}
+        e["ga"], e["dim"] = [], 0
+        try:
+            ok, gl = lc_check(states[0].copy(), states[1].copy(), validate=False)
+            e["out"] = {"err": "", "yes": bool(ok), "gates": sg.gate_list_obs(gl) if ok else []}
+            if not ok:
+                # for the cause of a (possibly wrong) 'no': the graphs the decision procedure was run on
+                from graphiq.backends.state_rep_conversion import state_to_graph
+                ga, gb = state_to_graph(states[0].copy())[0], state_to_graph(states[1].copy())[0]
+                e["ga"] = cz.graph_edges1(ga)
+                e["dim"] = solution_dim(adj_of(ga, n), adj_of(gb, n))
+        except Exception as ex:
+            e["out"] = {"err": type(ex).__name__, "yes": False, "gates": []}
+        evs.append(e)
+    return evs
+
+
 def local_comp_events(g1, n):
     from graphiq.backends.lc_equivalence_check import local_comp_graph
     from graphiq.backends.graph.state import Graph
@@ -186,6 +240,8 @@ def run(ctx):
             evs = local_comp_events(g1, n)
             for gj, g2 in enumerate(graphs):
                 evs += decide_events(g1, g2, n, rng, full=(not ctx.quick) or ((gi + gj) % 5 == 0))
+                if n >= 2 and ((not ctx.quick) or (gi + 2 * gj) % 7 == 0):
+                    evs += lc_state_events(g1, g2, n, rng, 1 if ctx.quick else 2)
             tid += 1
             traces.append({"tid": tid, "meta": {"n": n, "base": cz.graph_edges1(g1)}, "n": n,
                            "base": cz.graph_edges1(g1), "need_orbit": True, "events": evs})
